@@ -46,6 +46,7 @@ type hostileOpts struct {
 	ServerAfter func(srv *tls.Conn) // runs after the server's handshake succeeded
 	RawServer   func(c net.Conn)    // if set, replaces the TLS server entirely (raw peer)
 	Reset       func()              // resets the state of the closures above before a re-run
+	Prepare     func(u *tls.UConn) error // runs on the client before Handshake (session / PSK injection)
 }
 
 type hostileRes struct {
@@ -71,11 +72,7 @@ func warmUp() {
 		for _, id := range []tls.ClientHelloID{tls.HelloChrome_120, tls.HelloFirefox_105, tls.HelloIOS_14} {
 			runHostile(hostileOpts{ID: id, Reads: 1})
 		}
-		for alg := 1; alg <= 3; alg++ {
-			for _, mib := range []int{8, 32, 64} {
-				bombBody(alg, mib)
-			}
-		}
+
 	})
 }
 
@@ -173,6 +170,12 @@ func runHostileOnce(o hostileOpts) *hostileRes {
 		if o.Spec != nil {
 			if err := u.ApplyPreset(o.Spec); err != nil {
 				res.HS = "preset:" + sanitize(err.Error())
+				return
+			}
+		}
+		if o.Prepare != nil {
+			if err := o.Prepare(u); err != nil {
+				res.HS = "prepare:" + sanitize(err.Error())
 				return
 			}
 		}
@@ -315,7 +318,7 @@ func bombBody(alg, mib int) []byte {
 	case 2:
 		w = brotli.NewWriterLevel(&b, 5)
 	case 3:
-		zw, _ := zstd.NewWriter(&b, zstd.WithEncoderConcurrency(1), zstd.WithWindowSize(1<<20))
+		zw, _ := zstd.NewWriter(&b, zstd.WithEncoderConcurrency(1), zstd.WithWindowSize(1<<20), zstd.WithEncoderLevel(zstd.SpeedFastest))
 		w = zw
 	default:
 		return nil
@@ -346,7 +349,7 @@ func certBombBody(alg int, prefix []byte) []byte {
 	case 2:
 		w = brotli.NewWriterLevel(&b, 5)
 	case 3:
-		zw, _ := zstd.NewWriter(&b, zstd.WithEncoderConcurrency(1), zstd.WithWindowSize(1<<20))
+		zw, _ := zstd.NewWriter(&b, zstd.WithEncoderConcurrency(1), zstd.WithWindowSize(1<<20), zstd.WithEncoderLevel(zstd.SpeedFastest))
 		w = zw
 	default:
 		return prefix
@@ -380,7 +383,7 @@ func genDecomp(r *Rng, i int, tier string) string {
 	if i%4 == 3 { // decompression bombs: tiny body, huge inflated size, small valid declared length
 		alg = Pick(r, []int{1, 2, 3})
 		adv = Pick(r, []string{"1,2,3", "1,2,3", strconv.Itoa(alg)})
-		content = fmt.Sprintf("bomb:%d", Pick(r, []int{8, 32, 64}))
+		content = fmt.Sprintf("bomb:%d", Pick(r, []int{8, 32}))
 		decl = Pick(r, []string{"small", "small", "zero", "limit", "cert"})
 		body = "good"
 	}
@@ -553,12 +556,15 @@ func structuredMutation(msg []byte, mut string, salt int) ([]byte, bool) {
 			return msg, false
 		}
 		return appendExt(0, geti(1), payload(geti(2))), true
-	case "shext", "cookie":
+	case "shext", "cookie", "shpsk":
 		if msg[0] != 2 || len(msg) < 4+35 {
 			return msg, false
 		}
 		sidLen := int(msg[4+34])
 		off := 2 + 32 + 1 + sidLen + 2 + 1
+		if p[0] == "shpsk" { // pre_shared_key: selected_identity
+			return appendExt(off, 41, bU16(geti(1))), true
+		}
 		if p[0] == "cookie" {
 			return appendExt(off, 44, bVec16(payload(geti(1)))), true
 		}
@@ -677,7 +683,7 @@ func genStructured(r *Rng, id tls.ClientHelloID) (target string, mut string) {
 			alg = Pick(r, adv)
 		}
 		if r.Intn(4) == 0 { // decompression bombs with small, valid declared lengths
-			return "11", fmt.Sprintf("cc:%d:%s:%s", alg, Pick(r, []string{"small", "small", "exact", "zero"}), Pick(r, []string{"bomb8", "bomb32", "bomb64", "certbomb"}))
+			return "11", fmt.Sprintf("cc:%d:%s:%s", alg, Pick(r, []string{"small", "small", "exact", "zero"}), Pick(r, []string{"bomb8", "bomb32", "bomb32", "certbomb"}))
 		}
 		return "11", fmt.Sprintf("cc:%d:%s:%s", alg,
 			Pick(r, []string{"exact", "exact", "exact", "minus1", "plus1", "zero", "limit1", "huge", "max"}),
@@ -727,7 +733,58 @@ func genConn(r *Rng, i int, tier string) string {
 	if strings.HasPrefix(mut, "tkt") {
 		extra = " cache=1 resume=1"
 	}
+	// injected sessions / PSKs (SetPskExtension, SetSessionTicketExtension, a real cached session) against hostile
+	// pre_shared_key selections in the ServerHello and against HelloRetryRequests
+	if r.Intn(6) == 0 {
+		pskID := compactPSK(id)
+		if !pskID && r.Intn(3) != 0 {
+			id = Pick(r, []tls.ClientHelloID{tls.HelloChrome_100_PSK, tls.HelloChrome_112_PSK_Shuf, tls.HelloChrome_114_Padding_PSK_Shuf, tls.HelloChrome_115_PQ_PSK})
+		}
+		inj := Pick(r, []string{" cache=1 psk=fake1", " cache=1 psk=fake1", " cache=1 psk=fake2", " cache=1 warm=1", " cache=1 warm=1", " cache=1 psk=faketkt", " cache=1 psk=fakestate", " psk=fake1", ""})
+		extra = inj
+		switch r.Intn(4) {
+		case 0: // a genuine or cookie-carrying HelloRetryRequest
+			hrr, ver = 1, "13"
+			target, mut = "#0", Pick(r, []string{"none", "cookie:8", "cookie:300"})
+		case 1, 2:
+			hrr = 0
+			target, mut = "2", fmt.Sprintf("shpsk:%d", Pick(r, []int{0, 0, 0, 1, 2, 65535}))
+		}
+	}
 	return fmt.Sprintf("id=%s ver=%s hrr=%d target=%s mut=%s salt=%d%s", idName(id), ver, hrr, target, mut, r.Intn(1000), extra)
+}
+
+// pskPrepare returns the client preparation for the `psk=` token:
+//
+//	fake1 / fake2   FakePreSharedKeyExtension with 1 / 2 caller-supplied identities and binders (SetPskExtension):
+//	                the hello carries PSK identities while no SessionState stands behind them
+//	faketkt         SetSessionTicketExtension with an opaque ticket and no session (TLS 1.2 style)
+//	fakestate       SetSessionState(nil)
+//
+// (`warm=1` instead fills the session cache with a real session from a clean first connection.)
+func pskPrepare(kind string, salt int) func(u *tls.UConn) error {
+	r := NewRng(uint64(salt) + 99)
+	switch kind {
+	case "fake1", "fake2":
+		n := 1
+		if kind == "fake2" {
+			n = 2
+		}
+		f := &tls.FakePreSharedKeyExtension{}
+		for i := 0; i < n; i++ {
+			f.Identities = append(f.Identities, tls.PskIdentity{Label: r.Bytes(96), ObfuscatedTicketAge: uint32(r.U64())})
+			f.Binders = append(f.Binders, r.Bytes(32))
+		}
+		return func(u *tls.UConn) error { return u.SetPskExtension(f) }
+	case "faketkt":
+		t := r.Bytes(120)
+		return func(u *tls.UConn) error {
+			return u.SetSessionTicketExtension(&tls.SessionTicketExtension{Ticket: t, Initialized: true})
+		}
+	case "fakestate":
+		return func(u *tls.UConn) error { return u.SetSessionState(nil) }
+	}
+	return nil
 }
 
 func connConfigs(in KV) (*tls.Config, *tls.Config) {
@@ -788,7 +845,7 @@ func execConn(in KV) string {
 		hookAlloc += allocDelta(func() { out, ok = structuredMutation(data, mut, salt) })
 		if ok {
 			mutated = out
-		} else if strings.Contains("alps eeext shext cookie cc tkt", strings.Split(mut, ":")[0]) {
+		} else if strings.Contains("alps eeext shext shpsk cookie cc tkt", strings.Split(mut, ":")[0]) {
 			mutated = data // structured mutation not applicable to this message: leave it alone
 		} else {
 			mutated = mutateBytes(data, mut)
@@ -797,17 +854,44 @@ func execConn(in KV) string {
 	}
 	o := hostileOpts{ID: id, ClientCfg: ccfg, ServerCfg: scfg, Hooks: hooks, Reads: 2}
 	o.ServerAfter = func(srv *tls.Conn) { srv.Write([]byte("hello")) }
+	o.Prepare = pskPrepare(in["psk"], salt)
+	if mp := strings.Split(mut, ":"); mp[0] == "cc" && len(mp) == 4 && strings.HasPrefix(mp[3], "bomb") {
+		// build (once per process) outside the handshake: the in-package server's deadline is short
+		a, _ := strconv.Atoi(mp[1])
+		m, _ := strconv.Atoi(mp[3][4:])
+		bombBody(a, m)
+	}
+	if in["warm"] == "1" && ccfg.ClientSessionCache != nil {
+		// a clean first connection leaves a real session (ticket / PSK) in the cache
+		w := hostileOpts{ID: id, ClientCfg: ccfg, ServerCfg: scfg, Reads: 1}
+		w.ServerAfter = func(srv *tls.Conn) { srv.Write([]byte("hello")) }
+		runHostile(w)
+	}
 	o.Reset = func() {
 		mu.Lock()
 		defer mu.Unlock()
 		idx, hit, mutated, orig, mutIdx = 0, false, nil, nil, -1
 	}
 	var res *hostileRes
-	alloc := allocDelta(func() { res = runHostile(o) })
-	if alloc > hookAlloc {
-		alloc -= hookAlloc
-	} else {
-		alloc = 0
+	measure := func() uint64 {
+		hookAlloc = 0
+		a := allocDelta(func() { res = runHostile(o) })
+		if a > hookAlloc {
+			return a - hookAlloc
+		}
+		return 0
+	}
+	alloc := measure()
+	if alloc >= 32<<20 && res.Out != "panic" && res.Out != "timeout" {
+		// TotalAlloc is process-wide: a straggler of an earlier case can be charged to this one. An allocation
+		// that the peer's bytes drive reproduces; measure once more and keep the smaller figure.
+		first := res
+		o.Reset()
+		if again := measure(); again < alloc {
+			alloc = again
+		} else {
+			res = first
+		}
 	}
 	if os.Getenv("VERIF_ALLOC_DEBUG") != "" {
 		fmt.Fprintf(os.Stderr, "alloc id=%s mut=%s total=%d hook=%d\n", in["id"], mut, alloc, hookAlloc)
@@ -857,6 +941,24 @@ func execConn(in KV) string {
 		post = 1
 	}
 	changed := bi(hit && !bytes.Equal(orig, mutated))
+	nids, sess := -1, 0
+	if res.U != nil && res.U.HandshakeState.Hello != nil {
+		nids = len(res.U.HandshakeState.Hello.PskIdentities)
+		sess = bi(res.U.HandshakeState.Session != nil)
+	}
+	hserr := "-"
+	switch {
+	case strings.Contains(res.HS, "internal_error"):
+		hserr = "internal_error"
+	case strings.Contains(res.HS, "invalid_PSK_and_cipher"):
+		hserr = "psk_suite"
+	case strings.Contains(res.HS, "selected_an_invalid_PSK"):
+		hserr = "invalid_psk"
+	case strings.Contains(res.HS, "reprocessing_of_PSK"):
+		hserr = "psk_hrr_unsupported"
+	case strings.HasPrefix(res.HS, "prepare:") || strings.Contains(res.HS, "checkSessionExts_failed") || strings.Contains(res.HS, "specification_doesn"):
+		hserr = "prepare" // the injected session / PSK was refused locally: no hello was sent
+	}
 	decl, allocge := -1, 0
 	if hit && len(mutated) > 0 && mutated[0] == 25 {
 		if v, ok := tls.VerifUnmarshalCompressedCert(mutated); ok {
@@ -864,8 +966,8 @@ func execConn(in KV) string {
 			allocge = bi(alloc >= uint64(decl))
 		}
 	}
-	out := fmt.Sprintf("out=%s hs=%s rd=%s srv=%s hs2=%s hit=%d changed=%d otype=%s mtype=%s v13=%d hv=%d post=%d stage=%s alloc=%s decl=%d allocge=%d m=%s",
-		res.Out, connCls(res.HS), joinList(mapStr_c33(res.Reads, connCls)), srvCls(res.Srv), connCls(hs2), bi(hit), changed, ot, mt, v13, hv, post, stageOf(res.HS, res.Reads), allocClass(alloc), decl, allocge, mh)
+	out := fmt.Sprintf("out=%s neg=%s nids=%d sess=%d hserr=%s hs=%s rd=%s srv=%s hs2=%s hit=%d changed=%d otype=%s mtype=%s v13=%d hv=%d post=%d stage=%s alloc=%s decl=%d allocge=%d m=%s",
+		res.Out, sv, nids, sess, hserr, connCls(res.HS), joinList(mapStr_c33(res.Reads, connCls)), srvCls(res.Srv), connCls(hs2), bi(hit), changed, ot, mt, v13, hv, post, stageOf(res.HS, res.Reads), allocClass(alloc), decl, allocge, mh)
 	if res.Out == "panic" {
 		out += " msg=" + res.PanicAt
 	}
@@ -1297,6 +1399,9 @@ func hrrSpec(n int, withCookie bool) *tls.ClientHelloSpec {
 
 func genHRR_c33(r *Rng, i int, tier string) string {
 	n := 1 + i%10
+	if i%7 == 6 { // caller-supplied PSK identities (no session) as the last extension
+		return fmt.Sprintf("n=%d cookie=%d pre=0 real=%d psk=%d", 2+i%9, Pick(r, []int{1, 8, 32}), bi(n >= 4 && r.Bool()), 1+r.Intn(2))
+	}
 	pre := r.Intn(6) == 0
 	return fmt.Sprintf("n=%d cookie=%d pre=%d real=%d", n, Pick(r, []int{1, 8, 32, 300}), bi(pre), bi(!pre && n >= 4 && r.Bool()))
 }
@@ -1344,6 +1449,15 @@ func execHRR_c33(in KV) string {
 	n := in.Int("n")
 	cookieLen := in.Int("cookie")
 	spec := hrrSpec(n, in["pre"] == "1")
+	if k := in["psk"]; k != "" && k != "0" {
+		f := &tls.FakePreSharedKeyExtension{}
+		rr := NewRng(77)
+		for j := 0; j < in.Int("psk"); j++ {
+			f.Identities = append(f.Identities, tls.PskIdentity{Label: rr.Bytes(64), ObfuscatedTicketAge: 7})
+			f.Binders = append(f.Binders, rr.Bytes(32))
+		}
+		spec.Extensions = append(spec.Extensions, &tls.PSKKeyExchangeModesExtension{Modes: []uint8{1}}, f)
+	}
 	scfg := &tls.Config{}
 	real := in["real"] == "1"
 	if real {
@@ -1431,6 +1545,8 @@ func hrrCls(c string) string {
 	switch {
 	case c == "ok":
 		return "ok"
+	case strings.Contains(c, "internal_error"):
+		return "internal"
 	case strings.Contains(c, "cookieIndex"):
 		return "cookieindex"
 	case strings.Contains(c, "keyshare_not_found"):
